@@ -137,9 +137,27 @@ def icpdag_rules(rep, prog):
               "the edges fixed at the targets are not (i, child) / (parent, i) of G: " + why)
     st = [s for s in S.select("store", qname=q)]
     okc = False
+    # the edge handled in one round of the second loop: popped from the work list, or the element / indexed element of a for-loop
+    # that visits every collected edge exactly once (in any order)
+    EL = ("after", l1, names[0]) if names else None
+    Ln = ("ext", "len", (EL,), ())
+    it2 = second["iter"]
+    once_for = it2 is not None and it2 in (EL, ("ext", "reversed", (EL,), ()), ("sub", EL, ("slice", ("const", None), ("const", None), ("const", -1))),
+                                            ("ext", "list", (EL,), ()), ("ext", "tuple", (EL,), ()))
+    once_idx = it2 is not None and it2 in (("ext", "range", (Ln,), ()), ("ext", "range", (("binop", "-", Ln, ("const", 1)), ("const", -1), ("const", -1)), ()),
+                                            ("ext", "reversed", (("ext", "range", (Ln,), ()),), ()))
+
+    def is_edge(e_):
+        if e_[0] == "method" and e_[2] == "pop" and not e_[3]:
+            return it2 is None
+        if once_for:
+            return e_ == ("elem", it2)
+        if once_idx:
+            return e_ == ("sub", EL, ("elem", it2))
+        return False
     if len(st) == 1 and st[0].idx[0] == "tuple":
         a, b = st[0].idx[1]
-        okc = a[0] == "sub" and b[0] == "sub" and a[1] == b[1] and is_const(a[2], 1) and is_const(b[2], 0) and a[1][0] == "method" and a[1][2] == "pop" and \
+        okc = a[0] == "sub" and b[0] == "sub" and a[1] == b[1] and is_const(a[2], 1) and is_const(b[2], 0) and is_edge(a[1]) and \
             is_const(st[0].value, 0) and st[0].aug is None
     rep.check("ORIENT.clear", okc, fwhere(f, st[0].node if st else None), "fixing the edge (x, y) clears P[y, x]: the reverse direction disappears, x -> y remains",
               "fixing an edge does not clear exactly the reverse entry P[to, from]")
@@ -148,8 +166,11 @@ def icpdag_rules(rep, prog):
     if okl:
         nxP = second["next"][Pn[0]]
         okl = nxP[0] == "call" and nxP[1] == U + "maximally_orient" and dict(nxP[3]).get("P", ("x",))[0] == "store"
-        test = npred(second["test"], True)
-        okl = okl and (test[0] == "nonempty" or (test[0] == "atom" and test[2] is True and isinstance(test[1], tuple) and test[1][:1] == ("mu",)))      # `while len(x) > 0` / `while x`
+        if second["test"] is not None:
+            test = npred(second["test"], True)
+            okl = okl and (test[0] == "nonempty" or (test[0] == "atom" and test[2] is True and isinstance(test[1], tuple) and test[1][:1] == ("mu",)))      # `while len(x) > 0` / `while x`
+        else:
+            okl = okl and (once_for or once_idx)        # a for-loop over the collected edges (or their indices): one round per edge
     rep.check("DEPENDS.empty-I", okl and first["iter"] == PI, fwhere(f, second["node"]),
               "starts from dag_to_cpdag(G) and touches it once per fixed edge only: with I empty the work list is empty and the CPDAG is returned unchanged",
               "the I-CPDAG is not `dag_to_cpdag(G)` refined once per edge at a target")
